@@ -101,10 +101,16 @@ def audit(prop):
         ns = re.search(r'^namespace\s+([A-Za-z0-9_.]+)', code, flags=re.M)
         prefix = (ns.group(1) + '.') if ns else ''
         names += [prefix + n for n in re.findall(r'^\s*theorem\s+([A-Za-z0-9_.\']+)', code, flags=re.M)]
-        banned += [w for w in ('sorry', 'admit', 'native_decide', 'implemented_by', 'unsafe ', 'maxHeartbeats 0') if w in code]
-        if re.search(r'^\s*axiom\s', code, flags=re.M):
-            banned.append('axiom')
         imports.append('PGT.Props.' + os.path.basename(path)[:-5])
+    # banned constructs anywhere in the project (model, tables, lemmas, property files), comments stripped
+    for path in sorted(glob.glob(f'{LEAN}/PGT/**/*.lean', recursive=True)) + [f'{LEAN}/Main.lean'] + sorted(glob.glob(f'{LEAN}/Driver/*.lean')):
+        code = re.sub(r'/-.*?-/', '', open(path).read(), flags=re.S)
+        code = re.sub(r'--.*', '', code)
+        hits = [w for w in ('sorry', 'admit', 'native_decide', 'bv_decide', 'implemented_by', 'unsafe ', 'maxHeartbeats 0', 'decide +native') if re.search(r'(?<![A-Za-z_])' + re.escape(w), code)]
+        if re.search(r'^\s*axiom\s', code, flags=re.M):
+            hits.append('axiom')
+        if hits:
+            banned.append(f'{os.path.relpath(path, LEAN)}: {hits}')
     aud = ''.join(f'import {m}\n' for m in imports) + ''.join(f'#print axioms {n}\n' for n in names)
     tmp = f'{WORK}/audit_{prop}.lean'
     open(tmp, 'w').write(aud)
